@@ -240,10 +240,11 @@ pub fn c16(job: &Job, out: &mut Out) {
             if !all_ss {
                 out.stats.inc("nontrivial");
             }
-            let builder = what.contains("builder");
+            // (only the builders that demonstrably hold a closure capturing an `Rc`: for those Send is unsound whatever the payloads)
+            let builder = what.contains("builder-with-closure");
             // necessary direction only: nothing handed out by the library may cross threads when a
-            // payload may not, nothing of the plain flavours ever, and a search builder (which
-            // holds an unconstrained `&mut dyn FnMut`) must never be Send
+            // payload may not, nothing of the plain flavours ever, and a search builder that
+            // holds a closure capturing an `Rc` must never be Send
             let mut wrong: Vec<&str> = Vec::new();
             if (!is_sync_flavour || !all_ss) && send {
                 wrong.push("Send");
